@@ -14,7 +14,7 @@ import (
 
 func runC13(c *core.Ctx) {
 	runFixtures(c, "drop", "locks")
-	c.Explain("Schedules and fault sequences cannot be enumerated statically; the orderings the code relies on can be checked on every path. Decided from source: (R13.1) the announce call (pubsub Emit) is made only from the writer of regular entries, after the destination file's Close on that path and only when the writer's result error is nil; every write to the file precedes it; (R13.2) the Close error of the written destination file takes part in that result (a failed Close blocks the announcement); (R13.3) in the tar FS's Open the destination is opened only after the wait for the name and on the nil edge of the unpack error, and an invalid name returns before waiting; (R13.4) in the reader goroutine the unpack error is stored before the cancel functions that release waiters are called, and both are called on every exit; (R13.5) the announce table's maps are accessed only under its mutex (writes under the write lock), the visited test and the subscription in Wait share one critical section, and marking visited and taking over the subscriber list in Emit share one write-locked section with the callbacks run after it; (R13.6) an Open that proceeds past the wait has a reason — the name was announced or the reader has finished; (R13.8) every buffer taken from a bounded pool is given back on every path on which the unpack continues — a leak blocks the reader, and with it Done and every pending Open; (R13.7) every background writer goroutine is registered with Add before it starts, calls Done on all its exits and sends every non-nil error on the error channel. NOT claimed: completeness of bytes under every interleaving as such; liveness beyond R13.4/R13.7.")
+	c.Explain("Schedules and fault sequences cannot be enumerated statically; the orderings the code relies on can be checked on every path. Decided from source: (R13.1) the announce call (pubsub Emit) is made only from the writer of regular entries, after the destination file's Close on that path and only when the writer's result error is nil; every write to the file precedes it; (R13.2) the Close error of the written destination file takes part in that result (a failed Close blocks the announcement); (R13.3) in the tar FS's Open the destination is opened only after the wait for the name and on the nil edge of the unpack error, and an invalid name returns before waiting; (R13.4) in the reader goroutine the unpack error is stored before the cancel functions that release waiters are called, and both are called on every exit; (R13.5) the announce table's maps are accessed only under its mutex (writes under the write lock), the visited test and the subscription in Wait share one critical section, and marking visited and taking over the subscriber list in Emit share one write-locked section with the callbacks run after it; (R13.6) an Open that proceeds past the wait has a reason — the name was announced or the reader has finished; (R13.8) every buffer taken from a bounded pool is given back on every path on which the unpack continues — a leak blocks the reader, and with it Done and every pending Open; (R13.7) every background writer goroutine is registered with Add before it starts, calls Done on all its exits and sends every non-nil error on the error channel; (R13.9) the context whose Done channel the file system's Done() returns is derived from context.Background, not from the caller's context. NOT claimed: completeness of bytes under every interleaving as such; liveness beyond R13.4/R13.7.")
 	c.Assume("A2: sync, context, io semantics as documented")
 	c.RuleDoc("R13.1", "announce after close, only on success, only from the writer")
 	c.RuleDoc("R13.2", "close failure blocks the announcement")
@@ -22,6 +22,7 @@ func runC13(c *core.Ctx) {
 	c.RuleDoc("R13.4", "error published before waiters are released; releases on every exit")
 	c.RuleDoc("R13.5", "announce table lock discipline")
 	c.RuleDoc("R13.6", "an Open that proceeds has a reason")
+	c.RuleDoc("R13.9", "the context behind Done() is the reader's own")
 	c.RuleDoc("R13.7", "background writers always report")
 	c.RuleDoc("R13.8", "pool buffers are returned on every continuing path (a leaked buffer blocks the reader, and with it Done and every pending Open, forever)")
 	for _, p := range c.Progs {
@@ -45,6 +46,7 @@ func runC13(c *core.Ctx) {
 	c.Floor("R13.4", 1)
 	c.Floor("R13.5", 4)
 	c.Floor("R13.6", 1)
+	c.Floor("R13.9", 1)
 	c.Floor("R13.7", 1)
 	c.Floor("R13.8", 2)
 }
@@ -658,6 +660,37 @@ func r13Reason(c *core.Ctx, p *load.Program, sh *tarShape) {
 				rechecks = true
 			}
 		})
+	}
+	// R13.9: the channel Done() hands out belongs to the reader alone: the context behind it is not derived from the
+	// caller's. Otherwise Done() closes the instant the caller cancels — before the reader stored an error.
+	if done := methodsOf(p, sh.named)["Done"]; done != nil && ctor != nil {
+		field := ""
+		ssax.Instrs(done, func(ins ssa.Instruction) {
+			if cl, ok := ins.(*ssa.Call); ok && cl.Call.IsInvoke() && cl.Call.Method.Name() == "Done" {
+				if _, fi, isF := ssax.FieldLoad(cl.Call.Value); isF {
+					if st, ok := sh.named.Underlying().(*types.Struct); ok && fi < st.NumFields() {
+						field = st.Field(fi).Name()
+					}
+				}
+			}
+		})
+		k9 := "tar.ReaderFS.Done|reader-owned-context"
+		if field == "" {
+			c.Bad("R13.9", k9, p.Pos(done.Pos()), "Done() does not return the Done channel of a context kept in the file system value")
+		} else {
+			prov := ""
+			ssax.Instrs(ctor, func(ins ssa.Instruction) {
+				if st, ok := ins.(*ssa.Store); ok {
+					if fa, ok := st.Addr.(*ssa.FieldAddr); ok && ssax.FieldName(fa) == field {
+						if n := ssax.StructOfFieldAddr(fa); n != nil && types.Identical(n, sh.named) {
+							prov = from(st.Val, 0)
+						}
+					}
+				}
+			})
+			c.Check(prov == "reader", "R13.9", k9, p.Pos(done.Pos()), fmt.Sprintf("the context behind Done() (%s) is derived from context.Background and cancelled by the reader", field),
+				fmt.Sprintf("tar.ReaderFS.Done() returns the Done channel of %s, which the constructor derives from the caller's context (provenance: %s): Done() closes as soon as the caller cancels, while the reader is still inside an entry and has stored no error — after Done(), UnarchiveErr() is nil and Open returns a prefix of the entry", field, prov))
+		}
 	}
 	c.Check(src == "reader" || rechecks, "R13.6", key, p.Pos(mk.Pos()), "waiters are released only by the reader (announcement, or its own done-context after the error is stored), or Open re-checks after the wait",
 		fmt.Sprintf("%s: the context that releases every Wait is derived from the caller's context (%s): when the caller cancels, Open stops waiting before the reader has stored an error or finished the entry, finds no unpack error and opens the destination — it can return a big file that is still being written, or report a missing file as not existing instead of failing with the cancellation", fname(ctor), src))
